@@ -758,7 +758,10 @@ func main() {
 		}},
 		{"GenSnap", func() string {
 			return snapGuards(repo) + effectOrder(repo, "stores/basestore/utils.go", "SaveSnapshot", "saveSnapshotOrder", [][2]string{
-				{"heads", "oplog.Heads()"}, {"len", "oplog.Len()"}, {"entries", "oplog.GetEntries()"}})
+				{"heads", "oplog.Heads()"}, {"len", "oplog.Len()"}, {"entries", "oplog.GetEntries()"}}) +
+				effectOrder(repo, bs, "LoadFromSnapshot", "loadSnapshotOrder", [][2]string{
+					{"rebuild", "ipfslog.NewFromJSON("}, {"count", "log.GetEntries()"}, {"max", "b.recalculateReplicationMax("},
+					{"join", "b.OpLog().Join("}, {"index", "b.updateIndex("}, {"status", "b.recalculateReplicationStatus("}})
 		}},
 		{"GenListener", func() string {
 			return listenerExits(repo, [][2]string{{"baseorbitdb/orbitdb.go", "monitorDirectChannel"}, {bs, "pubSubChanListener"}})
